@@ -27,6 +27,14 @@ def run(tier, seed):
                 a, b = r.choice(others)
                 filt = {a: r.choice(b)}
             p["ops"].append({"op": "rebalance", "strat": sname, "filt": filt, "props": props})
+            if filt and r.random() < 0.5:
+                # the same stratification adjusted again for another stratum of the filter, other proportions
+                (a, v), = filt.items()
+                rest = [x for x in dict(strats)[a] if x != v]
+                if rest:
+                    w2 = [r.randint(1, 5) for _ in strata]
+                    p["ops"].append({"op": "rebalance", "strat": sname, "filt": {a: r.choice(rest)},
+                                     "props": {s_: str(gen.Fraction(x, sum(w2))) for s_, x in zip(strata, w2)}})
         if i % 11 == 0:
             # whole-population array given as a graph object (used verbatim)
             pass
@@ -49,7 +57,7 @@ def run(tier, seed):
             nontrivial.add(checklib.signature(p))
     return {"programs": out, "explore": ex, "distinct_nontrivial": len(nontrivial),
             "rule": "literal, parameterised and function-valued distributions and splits, 1-3 full/partial stratifications, 0-3 "
-                    "population-split adjustments after the last stratification (with and without destination filters), 10% with a whole-population array as a graph object; get_initial_population / one_step compared "
+                    "population-split adjustments after the last stratification (with and without destination filters; pairs of adjustments of one stratification for different strata of the same filter key), 10% with a whole-population array as a graph object; get_initial_population / one_step compared "
                     "with the model; on the implementation the population is recomputed from the definition and compared with "
                     "get_initial_population, one_step().initial_population and row 0 of the outputs of all three solvers; "
                     "non-trivial = stratified at least once",
